@@ -213,6 +213,8 @@ int vnadata_set_format(vnadata_t *vdp, const char *format)
 {
     vnadata_internal_t *vdip;
     vnadata_format_descriptor_t *vfdp_new = NULL;
+    vnadata_format_descriptor_t *vfdp_old;
+    int old_count;
     size_t length;
     char *format_copy = NULL;
     char *cur;
@@ -300,17 +302,22 @@ int vnadata_set_format(vnadata_t *vdp, const char *format)
      * Replace the current format vector.
      */
 update:
-    free((void *)vdip->vdi_format_vector);
+    vfdp_old = vdip->vdi_format_vector;
+    old_count = vdip->vdi_format_count;
     vdip->vdi_format_vector = vfdp_new;
-    vfdp_new = NULL;
     vdip->vdi_format_count = nfields;
 
     /*
-     * Update the format string.
+     * Update the format string.  On failure, put the old vector back
+     * so that vector, count and string stay consistent.
      */
     if (_vnadata_update_format_string(vdip) == -1) {
+	vdip->vdi_format_vector = vfdp_old;
+	vdip->vdi_format_count = old_count;
 	goto out;
     }
+    vfdp_new = NULL;
+    free((void *)vfdp_old);
     rc = 0;
 
 out:
